@@ -187,7 +187,7 @@ def run(ctx):
                     r.bad(key, "GlobSetMatchStrategy::%s: the %s arm does not forward to %s::%s" % (m, v, sty, m), fn=g, construct=v)
 
     with ctx.rule("C12.SIBLINGS", "is_match and matches_into agree per strategy; both set entry points scan all strategies",
-                  floor=9, kind="PARITY") as r:
+                  floor=18, kind="PARITY") as r:
         for v, sty in STRATS.items():
             a = facts.fn("%s::%s::is_match" % (G, sty))
             b = facts.fn("%s::%s::matches_into" % (G, sty))
@@ -197,6 +197,26 @@ def run(ctx):
             else:
                 r.bad(sty, "%s::is_match uses %s but matches_into uses %s" % (sty, sorted(fa - fb), sorted(fb - fa)), fn=b,
                       construct=sty)
+            # value side of the parity: the emptiness guard of is_match answers false, and matches_into does hand out an index
+            eba = ExprBuilder(a)
+            emp = cond_switches(a, lambda e: (is_call(e, "alloc::borrow::Cow::is_empty") or (e.k == "call" and e[1].endswith("::is_empty")))
+                                and any(x.k == "field" and x[2] == CAND for x in walk(e)), eba)
+            if emp:
+                s1 = Sccp(a).run([(emp[0][1][1], {})])
+                v1 = {x for v_ in s1.ret_values.values() for x in value_set(v_)}
+                if v1 == {I(0)}:
+                    r.ok(sty + "|empty", "nothing to compare ⇒ is_match answers false", fn=a)
+                else:
+                    r.bad(sty + "|empty", "%s::is_match answers %s when the candidate has no basename / extension: the set would "
+                          "match every such path" % (sty, sorted(map(str, v1))), fn=a, construct=sty)
+            adds = [c for c in b.calls() if c.path.split("::")[-1] in ("push", "extend", "extend_from_slice", "extend_desugared", "insert")
+                    and "Vec" in c.path or c.path.endswith("iter::traits::collect::Extend::extend")]
+            deep = adds or [c for g_ in facts.closures_of(b.path) for c in g_.calls() if c.path.split("::")[-1] in ("push", "extend", "extend_from_slice")]
+            if deep:
+                r.ok(sty + "|push", "matches_into hands out the indices it found", fn=b, nontrivial=False)
+            else:
+                r.bad(sty + "|push", "%s::matches_into never adds an index to the output: globs of this strategy vanish from "
+                      "GlobSet::matches while is_match still sees them" % sty, fn=b, construct=sty)
         for m, callee in (("is_match_candidate", "is_match"), ("matches_candidate_into", "matches_into")):
             f = facts.fn(GS + "::" + m)
             eb = ExprBuilder(f)
